@@ -8,7 +8,7 @@ CONSTANTS
   Versions = {0, 1, 2, 3}
   VerEpochs = {"", "va", "vb"}
   IdemKeys = {"", "k1", "k2"}
-  IdemTTLs = {1, 2}
+  IdemTTLs = {1, 2, 3}
   Scores <- ScoresSim
   Limits <- LimitsBig
   PageSizes = {1, 2}
@@ -20,7 +20,7 @@ CONSTANTS
   SweepSlack <- SlackOne
 VIEW TraceView
 CONSTRAINT HighWater
-INVARIANTS TypeOK ReadStreamIsRetainedSuffix ReadStateIsRefPage PageAfterCursor
-PROPERTIES T_CheckOrder T_SuppressedChangesNothing T_AppliedAppendsAndBroadcastsOnce T_NeverLostNeverTwice T_EpochStable
+INVARIANTS TypeOK SweeperArmed ReadStreamIsRetainedSuffix ReadStateIsRefPage PageAfterCursor OrderedFlagFollowsOptions
+PROPERTIES T_CheckOrder T_SuppressedChangesNothing T_AppliedAppendsAndBroadcastsOnce T_NeverLostNeverTwice T_IdemExact T_EpochStable
 POSTCONDITION TraceAccepted
 CHECK_DEADLOCK FALSE
